@@ -139,6 +139,10 @@ pub fn authentic(issue: &IssueCase, issued_token: &str, pres: &Presentation) -> 
 pub fn content_matches(issue: &IssueCase, opened: &Opened) -> bool {
     match opened {
         Opened::Msg(m) => *m == issue.msg,
+        Opened::Json(v, _) if issue.layer == Layer::Core => {
+            // a core-issued token whose message is JSON text, opened by a parser layer
+            serde_json::from_str::<Value>(&issue.msg).map_or(false, |want| &want == v)
+        }
         Opened::Json(v, _) => {
             let Some(obj) = v.as_object() else { return false };
             if obj.get("data") != Some(&Value::String(issue.msg.clone())) {
